@@ -1,5 +1,5 @@
 #!/bin/sh
-# tools/seed_intake.sh <Cxx> [worktree]
+# tools/seed_intake.sh <Cxx> [worktree] [name under /verif/seeded]
 # Confirms an independently produced breaking change held in a scratch git
 # worktree of /repo (default /tmp/seed_<Cxx>):
 #   1. the existing test suite passes with the change,
@@ -7,7 +7,7 @@
 # then copies patch.diff + demonstration + notes into /verif/seeded/<Cxx>/ and
 # prints a verdict block (to be recorded in meta.json). The worktree is left
 # in place; remove it with: git -C /repo worktree remove --force <dir>
-ID="$1"; W="${2:-/tmp/seed_$ID}"
+ID="$1"; W="${2:-/tmp/seed_$ID}"; DEST="${3:-$ID}"
 set -u
 cd "$W" || exit 2
 git diff -- src > "$W/.intake.diff"
@@ -32,10 +32,10 @@ git checkout -- src
 echo "== demo without change"
 RC0=$(run_demo "$W/.demo_without.txt"); echo "exit=$RC0"; tail -3 "$W/.demo_without.txt"
 git apply "$W/.intake.diff"
-mkdir -p "/verif/seeded/$ID"
-cp "$W/.intake.diff" "/verif/seeded/$ID/patch.diff"
-cp "$W/$DEMO" "/verif/seeded/$ID/"
-[ -f notes.md ] && cp notes.md "/verif/seeded/$ID/notes.md"
-tail -40 "$W/.demo_with.txt" > "/verif/seeded/$ID/demo_output_with_change.txt"
-tail -15 "$W/.demo_without.txt" > "/verif/seeded/$ID/demo_output_without_change.txt"
+mkdir -p "/verif/seeded/$DEST"
+cp "$W/.intake.diff" "/verif/seeded/$DEST/patch.diff"
+cp "$W/$DEMO" "/verif/seeded/$DEST/"
+[ -f notes.md ] && cp notes.md "/verif/seeded/$DEST/notes.md"
+tail -40 "$W/.demo_with.txt" > "/verif/seeded/$DEST/demo_output_with_change.txt"
+tail -15 "$W/.demo_without.txt" > "/verif/seeded/$DEST/demo_output_without_change.txt"
 echo "== verdict: demo_with=$RC1 demo_without=$RC0"
